@@ -194,9 +194,13 @@ def check_case(spec, form, sel, placement, stats, enum=True, kwnames=KW, maxpos=
     if placement == 'function':
         target = g
     else:
-        K = type('K', (object,), {'m': g})
+        # value objects: every instance equals (and hashes like) every other one; the method bound on an
+        # earlier, equal instance is still held when it is bound on `obj` (descriptor caches must key on identity)
+        K = type('K', (object,), {'m': g, '__eq__': lambda self, other: type(other) is type(self), '__hash__': lambda self: 1})
+        earlier = K()
         obj = K()
         try:
+            held = earlier.m if placement == 'bound' else None
             target = obj.m if placement == 'bound' else K.m
         except Exception as e:
             first_selected = form == 'names' and 'self' in (sel[0] + sel[1])
